@@ -19,13 +19,17 @@ PY
 rc=$?
 if [ $rc -ne 0 ]; then rm -rf "$scratch"; exit 3; fi
 cd "$(dirname "$0")/.."
+# a mutated run rewrites this property's evidence and replays: keep the real ones aside and put them back
+mkdir -p "$scratch/keep"
+[ -f "evidence/$prop.json" ] && cp "evidence/$prop.json" "$scratch/keep/"
+[ -d "replays/$prop" ] && cp -r "replays/$prop" "$scratch/keep/replays"
 VERIF_REPO_SRC="$scratch/src" ./check "$prop" "$@" > "$scratch/out.txt" 2>&1
 rc=$?
+rm -rf "replays/$prop"
+[ -d "$scratch/keep/replays" ] && cp -r "$scratch/keep/replays" "replays/$prop"
+[ -f "$scratch/keep/$prop.json" ] && cp "$scratch/keep/$prop.json" "evidence/$prop.json"
 grep -E "^(VIOLATION|violation:|HARNESS)" "$scratch/out.txt" | head -4
 tail -1 "$scratch/out.txt"
 rm -rf "$scratch"
-# a mutated run writes evidence/replays for the mutant: restore the committed ones
-git checkout -q -- evidence replays 2>/dev/null
-git clean -fdq replays 2>/dev/null
 if [ $rc -eq 1 ]; then echo "CAUGHT $prop $file"; exit 0; fi
 echo "MISSED(rc=$rc) $prop $file: $old"; exit 1
